@@ -23,9 +23,23 @@ LAYOUTS = ['xsec', 'k1', 'k2', 'k3']
 WNREQ = ['none', 'full', 'sub', 'single']
 
 
-def axis_points(grid, log=False):
+def axis_points(grid, log=False, fine=False):
     g = np.log10(np.asarray(grid, float)) if log else np.asarray(grid, float)
     pts = []
+    if fine:
+        # thorough: every node, five points inside every cell, two points outside each end
+        inv = (lambda v: float(10 ** v)) if log else float
+        span = g[-1] - g[0]
+        pts.append(('below', inv(g[0] - 0.3 * span) if log else float(g[0] * 0.5)))
+        pts.append(('below', inv(g[0] - 1e-9 * span) if log else float(g[0] * (1 - 1e-12))))
+        for i in range(len(g)):
+            pts.append(('min' if i == 0 else 'max' if i == len(g) - 1 else 'node', float(grid[i])))
+            if i < len(g) - 1:
+                for f in (1e-9, 0.25, 0.5, 0.75, 1 - 1e-9):
+                    pts.append(('cell', inv(g[i] + f * (g[i + 1] - g[i]))))
+        pts.append(('above', inv(g[-1] + 1e-9 * span) if log else float(g[-1] * (1 + 1e-12))))
+        pts.append(('above', inv(g[-1] + 0.3 * span) if log else float(g[-1] * 1.5)))
+        return pts
     span = g[-1] - g[0]
     inv = (lambda v: float(10 ** v)) if log else float
     pts.append(('below', inv(g[0] - 0.3 * span) if log else float(g[0] * 0.5)))
@@ -55,7 +69,7 @@ def make_table(case):
         p = 'generic'
         per_wn = [1.0, 1e-7, 1e-14, 1e-20]
         mag = 1e-24         # down to 1e-40 cm^2
-    x = fx.table(nP, nT, nW, mag, salt=('c04', pat), pattern=p, per_wn=per_wn)
+    x = fx.table(nP, nT, nW, mag, salt=('c04', pat, case.get('variant', 0)), pattern=p, per_wn=per_wn)
     lay = case['layout']
     if lay != 'xsec':
         ng = int(lay[1])
@@ -93,7 +107,8 @@ def case_fn(case):
     isk = case['layout'] != 'xsec'
     mode = case['mode']
     tag = '%s/%s' % (mode, 'ktable' if isk else 'xsec')
-    for (tn, T), (pn, P) in itertools.product(axis_points(Tg), axis_points(Pg, log=True)):
+    fine = bool(case.get('fine'))
+    for (tn, T), (pn, P) in itertools.product(axis_points(Tg, fine=fine), axis_points(Pg, log=True, fine=fine)):
         where = 'T=%s,P=%s' % (tn, pn)
         try:
             got = op.opacity(T, P, wreq)
@@ -132,12 +147,17 @@ def case_fn(case):
 def explore(ctx):
     shapes = [(2, 2), (2, 3), (3, 2), (3, 3)]
     if ctx.tier == 'thorough':
-        shapes += [(4, 4), (2, 4), (4, 3)]
+        shapes += [(4, 4), (2, 4), (4, 3), (4, 2), (3, 4)]
         pats, wnreq = PATTERNS, WNREQ
     else:
         pats, wnreq = ['generic', 'saddle', 'wide', 'tiny', 'flat'], ['none', 'sub', 'full']
     cases = []
     for shape, pat, mode, lay, wq in itertools.product(shapes, pats, ['linear', 'exp'], LAYOUTS, wnreq):
         cases.append({'shape': list(shape), 'pattern': pat, 'mode': mode, 'layout': lay, 'wn': wq})
+        if ctx.tier == 'thorough' and wq == 'none':
+            for variant in range(1, 4 if pat in ('generic', 'wide', 'tiny') else 1):
+                cases.append({'shape': list(shape), 'pattern': pat, 'mode': mode, 'layout': lay, 'wn': wq,
+                              'variant': variant, 'fine': True})
+            cases.append({'shape': list(shape), 'pattern': pat, 'mode': mode, 'layout': lay, 'wn': wq, 'fine': True})
     ctx.bounds.update(shapes=len(shapes), lattice='8x8 (7x7 for 2-node axes)')
     ctx.run_cases('case_fn', cases)
